@@ -2,8 +2,8 @@
 from corr import corr_mesh, corr_terms, corr_tvd, corr_ghost, corr_assemble, corr_means
 import solversearch as SS
 
-MODULES = ["PyFV.Props.C17"]
-TRANSLATORS = {"T-lim": "python3 harness/translate/tlim.py lean/PyFV/Gen/Limiters.lean"}
+MODULES = ["PyFV.Props.C17", "PyFV.Props.GenEqUpw"]
+TRANSLATORS = {"T-lim": "python3 harness/translate/tlim.py lean/PyFV/Gen/Limiters.lean", "T-upw": "python3 harness/translate/tupw.py lean/PyFV/Gen/StencilsUpw.lean"}
 
 
 def corr(rng, tier):
